@@ -424,3 +424,8 @@ w("C16", "polars builder resolves the raw annotation before looking at the Annot
   "            if annotation.metadata and not is_polars_dtype and annotation.origin is Series:\n                if field.dtype_kwargs:")
 w("C15", "rename_columns accepts repeated new names again", "pandera/api/dataframe/container.py",
   "        if repeated:\n            raise errors.SchemaInitError(\n                f\"Keys {repeated} are the new name of more than one column!\"\n            )\n", "")
+w("C10", "polars coercible mask ignores the input's nulls again", "pandera/engines/polars_engine.py",
+  "        pl.col(key).is_null()\n        | pl.col(key).cast(type_, strict=False).is_not_null()\n", "        pl.col(key).cast(type_, strict=False).is_not_null()\n")
+w("C10", "polars coercible mask taken from the cast frame alone (original form)", "pandera/engines/polars_engine.py",
+  "    coercible = data_container.lazyframe.select(\n        pl.col(key).is_null()\n        | pl.col(key).cast(type_, strict=False).is_not_null()\n    )\n",
+  "    coercible = data_container.lazyframe.cast(\n        {key: type_}, strict=False\n    ).select(pl.col(key).is_not_null())\n")
